@@ -77,6 +77,26 @@ def c05(payload):
             IB, IC = np.array(B.current), np.array(C.current)
             if len(IB) == len(IC) and np.abs(IB - IC).max() > tol * np.abs(IC).max():
                 bad.append('options and coordinates give different currents (%.3g relative)' % (np.abs(IB - IC).max() / np.abs(IC).max()))
+            # the same motion through the command line: the transformations are applied in the NUMERIC order of their keys,
+            # whatever the order and the spelling of the options
+            if all(w.get('tag') is not None or not w.get('taper') for w in spec['wires']):
+                from mininec.mininec import main as _main
+                import io as _io
+                k1, k2 = rng.choice([('9', '10'), ('5', '100'), ('-2', '-1'), ('8', '12.0'), ('1.5', '10.5'), ('2', '1e1'), ('1', '2')])
+                tr = [dict(op='translate', keytext=k2, v=sh, tag=None), dict(op='rotate', keytext=k1, v=ang, tag=None)]
+                if rng.random() < 0.5: tr.reverse()
+                err = _io.StringIO()
+                G = _main(gen.to_argv(spec, transforms=tr), f_err=err, return_mininec=True)
+                if isinstance(G, int):
+                    bad.append('the same motion given on the command line is rejected: %s' % err.getvalue()[:200])
+                else:
+                    G.compute(); cmp(G, 'rotation (key %s) + translation (key %s) on the command line' % (k1, k2))
+                    pg = np.array([p.point for p in G.pulses]); pc = np.array([p.point for p in C.pulses])
+                    if pg.shape == pc.shape:
+                        dev = np.abs(pg - pc).max(); ext = max(np.abs(pc).max(), lam)
+                        if dev > 1e-9 * ext:
+                            bad.append('command line puts the antenna elsewhere: rotation (key %s) then translation (key %s) on the command line puts the '
+                                       'antenna %.3g m away from the same motion written into the coordinates' % (k1, k2, dev))
             # ... and the same orientation in space: identical patterns
             zq = Angle(10.0, 25.0 if ground else 50.0, 3); aq = Angle(rng.uniform(0, 360), 70.0, 3)
             B.compute_far_field(zq, aq); C.compute_far_field(zq, aq)
